@@ -542,6 +542,31 @@ def iFourier : IProg :=
              .scratchWrite 0 (.op2 opFT (.loc 2) (.loc 1)), .scratchRead 3 0],
     ret := .loc 3 }
 
+/-- `MatrixFourierTransform` (2-D, `allocate_intermediate`): the matrices `M1`/`M2` (cell 0, key
+`matrices_dtype`) **and** the preallocated `intermediate_array` (cell 1, key `intermediate_dtype`) are kept
+per working precision.  The precision is that of the field passed in (`_compute_matrices(field.dtype)`);
+it is modelled as `param 0`, which the harness sets before a call with a field of that precision.
+The first `gemm` is handed the intermediate array as its output (`c=…, overwrite_c=True`): what lands in
+the work buffer depends on the array it was given (scipy's BLAS wrapper works on a converted temporary
+when `c` has another dtype than the routine's); the second `gemm` reads the buffer. -/
+def opAlloc := 19
+def opGemm := 20
+def iMftMatSpec : IExpr := .op1 opMatrices (.atom (.param 0))
+def iMftBufSpec : IExpr := .op1 opAlloc (.atom (.param 0))
+def iMftBody : List IInstr :=
+  [.memoRead 1 0 iMftMatSpec, .memoFill 0 iMftMatSpec,
+   .memoRead 2 1 iMftBufSpec, .memoFill 1 iMftBufSpec,
+   .scratchWrite 0 (.op2 opGemm (.op2 opMul .field (.loc 1)) (.loc 2)), .scratchRead 3 0]
+def iMft : IProg :=
+  { keyAtoms := fun _ => [.param 0], spec := fun c => if c = 0 then iMftMatSpec else iMftBufSpec,
+    body := iMftBody, ret := .op2 opFT (.loc 3) (.loc 1) }
+
+/-- **Seeded defect class (C06-8)** — the intermediate array allocated *once* (`if … is None`) instead of
+per precision: cell 1 is keyed by nothing although its content depends on the precision. -/
+def iMftAllocOnceOld : IProg :=
+  { keyAtoms := fun c => if c = 0 then [.param 0] else [], spec := fun c => if c = 0 then iMftMatSpec else iMftBufSpec,
+    body := iMftBody, ret := .op2 opFT (.loc 3) (.loc 1) }
+
 /-- propagators: an agnostic instance (cell 0) that owns a Fourier object (cell 1, scratch 0). -/
 def iPropagator : IProg :=
   { keyAtoms := fun c => if c = 0 then [.param 0, .grid, .wavelength] else [.param 1],
@@ -592,12 +617,14 @@ def internalPrograms : List (String × IProg × List String × List String) :=
       ["M", "M1", "M2", "weights_input", "weights_output", "matrices_dtype", "intermediate_dtype",
        "_transfer_function", "internal_array", "intermediate_array"],
       ["internal_array", "intermediate_array"]),
+   ("mft", iMft, ["M1", "M2", "matrices_dtype", "intermediate_dtype", "intermediate_array"], ["intermediate_array"]),
    ("propagator", iPropagator, ["_instance_data_cache", "_num_in_cache"], []),
    ("modulatedPyramid", iModulated, ["tip_tilt_mirror"], [])]
 
 def internalByName (n : String) : Option (IProg × List String × List String) :=
   if n == "modalAOOld" then some (iModalAOOld, ["_achromatic_screen"], [])
   else if n == "unkeyed" then some (iUnkeyed, ["_instance_data_cache"], [])
+  else if n == "mftAllocOnceOld" then some (iMftAllocOnceOld, ["M1", "M2", "intermediate_array"], ["intermediate_array"])
   else (internalPrograms.find? (·.1 == n)).map (·.2)
 
 end HcipyVerif.Elements
